@@ -319,6 +319,29 @@ func vShorthandsVsLonghands() (int, []string) {
 			compare(sh[0]+": "+strings.Join(hs[:nh], " "), strings.Join(longs, "; "))
 		}
 	}
+	// css-flexbox-1 §7.1: the `flex` shorthand against its longhands (a unitless 0 after two flex factors is the basis)
+	for _, pair := range [][2]string{
+		{"flex: none", "flex-grow: 0; flex-shrink: 0; flex-basis: auto"},
+		{"flex: auto", "flex-grow: 1; flex-shrink: 1; flex-basis: auto"},
+		{"flex: 1 1 0", "flex-grow: 1; flex-shrink: 1; flex-basis: 0"},
+		{"flex: 2 3 0", "flex-grow: 2; flex-shrink: 3; flex-basis: 0"},
+		{"flex: 0 0 0", "flex-grow: 0; flex-shrink: 0; flex-basis: 0"},
+		{"flex: 1 0 auto", "flex-grow: 1; flex-shrink: 0; flex-basis: auto"},
+		{"flex: 2 3 10px", "flex-grow: 2; flex-shrink: 3; flex-basis: 10px"},
+		{"flex: 0 auto", "flex-grow: 0; flex-shrink: 1; flex-basis: auto"},
+		{"flex: 10px 2", "flex-grow: 2; flex-shrink: 1; flex-basis: 10px"},
+	} {
+		n++
+		got, want := vDeclared(pair[0]), vDeclared(pair[1])
+		if len(want) != 3 {
+			fail("%q: %d longhands understood, expected 3", pair[1], len(want))
+		}
+		for k, w := range want {
+			if g, ok := got[k]; !ok || !reflect.DeepEqual(g, w) {
+				fail("%q: %s is %v, the longhand gives %v", pair[0], k, g, w)
+			}
+		}
+	}
 	// spelling: keywords, units and property names are ASCII case-insensitive (CSS Syntax 3 §4, css-values §3.1):
 	// the upper-case spelling of a declaration assigns what the lower-case spelling assigns, and something
 	for _, text := range []string{
@@ -341,7 +364,7 @@ func vShorthandsVsLonghands() (int, []string) {
 	return n, fails
 }
 
-//@ bounded vShorthandsVsLonghands 8 shorthands x every subset and order of their components x 3 spellings, 192 one- to three-layer background shorthands, border-radius with 1-4 horizontal and 0-4 vertical radii and three four-sides shorthands with 1-4 values, against the equivalent longhand declarations; 27 declarations in upper case against their lower-case spelling
+//@ bounded vShorthandsVsLonghands 8 shorthands x every subset and order of their components x 3 spellings, 192 one- to three-layer background shorthands, border-radius with 1-4 horizontal and 0-4 vertical radii and three four-sides shorthands with 1-4 values, against the equivalent longhand declarations; 9 flex shorthands against their longhands; 27 declarations in upper case against their lower-case spelling
 //@   props C08
 
 // border-radius: the index reads of the two radius lists are safe (each list holds exactly four values
